@@ -326,7 +326,17 @@ def device_dialogues(acc, rng, out, app_hash, it, bad, do_authorize_signer):
             continue
         gd = GenuineLedger(rng, onboarded=True, mode=MODE_BOOTLOADER, pin=b"abcd1234")
         gd.sigauth_threshold = thr
+        # a quarter of the dialogues end with the transport reporting an error on close
+        # (unplugged or rebooted device): whatever the command then reports, it may not be
+        # success when the device never authorized the signer
+        close_fails = rng.random() < 0.25
         with AdminEnv(gd.dev, "ledger") as ae:
+            if close_fails:
+                from ledgerblue.commException import CommException
+                cexc = CommException("Error while closing the device", 0x6F00)
+                # (from the moment the authorization dialogue has begun)
+                ae.bus.close_fault = lambda: cexc if gd.sigauth_log else None
+                acc.count("dialogues_ending_with_a_failing_close")
             o = options(pin="abcd1234", signer_authorization_file_path=out)
             if rng.random() < 0.5:
                 # through adm_ledger's own command line (parser, defaults, dispatch table)
@@ -346,6 +356,8 @@ def device_dialogues(acc, rng, out, app_hash, it, bad, do_authorize_signer):
             bad("device-exchange-differs", threshold=thr, nsig=n,
                 got=[(a, b.hex()[:24]) for a, b in log][:6],
                 want=[(a, b.hex()[:24]) for a, b in want][:6])
+        if close_fails and should_succeed:
+            continue
         if ok != should_succeed:
             bad("authorize-%s-although-device-%s" % (
                 "succeeded" if ok else "failed",
